@@ -133,7 +133,7 @@ Fixpoint read_loop (fuel : nat) (P D : list dom) (var : bool) (i : uiter) (acc :
   match fuel with
   | O => acc
   | S f =>
-      let i' := u_next P D var DEFAULT_CHUNK i MAXTS in
+      let i' := u_next P D var DEFAULT_CHUNK false i MAXTS in
       if u_valid i' then read_loop f P D var i' (acc ++ u_frame i') else acc
   end.
 
